@@ -135,6 +135,19 @@ CHECKS = {
             'precedence table: exactly the expected target ran, once, with '
             'the documented argument prefix; reserved events never reach a '
             'catch-all event handler.'),
+    'C14': ('DESIGN 4/C14',
+            'Differential simulation: scenarios drawn from the workload '
+            'generators of the other checks (server + wire peers incl. '
+            'hostile frames, real clients + scripted server, two to four '
+            'hosts on a bus incl. garbage messages, simple client) are '
+            'executed once in the thread world against Server / Client / '
+            'Manager / PubSubManager / Namespace / SimpleClient and once in '
+            'the asyncio world against their asyncio twins, with zero '
+            'latencies and pauses so that neither trace depends on a '
+            'schedule; oracle = equal per-peer frame sequences, equal bus '
+            'publications per host, equal handler and callback invocations '
+            'per client, equal results / exception types of every API call, '
+            'and equal verdicts of the scenario\'s own oracle.'),
     'C15': ('DESIGN 4/C15',
             'Seeded search over channel sequences written by a foreign '
             'publisher into the simulated bus of 1-2 real servers (both '
